@@ -116,7 +116,7 @@ ENGINE_SHAPES = ["forloop", "tablerowloop", "block", "now", "today", "str", "int
 # shapes whose VALUE is itself a Python-internal object the host chose to expose: that object
 # reaching a filter / being stringified is not the subject (only what lies behind it is)
 # variants of a kind already swept in full: the quick tier thins their plain string/math filter sites
-SECONDARY_SHAPES = {"sized0", "sized1", "sizedmax", "sizedneg", "seqmax", "mapneg", "seqover", "raiser_type", "raiser_index", "raiser_attr", "raiser_value", "typednt", "ntuplesub",
+SECONDARY_SHAPES = {"proxylist", "proxyrecord", "sized0", "sized1", "sizedmax", "sizedneg", "seqmax", "mapneg", "seqover", "raiser_type", "raiser_index", "raiser_attr", "raiser_value", "typednt", "ntuplesub",
                     "dc_frozen", "dc_slots", "userstring", "simplens", "dictget", "tuplesub", "userlist",
                     "time", "timedelta", "complex", "fraction", "frozenset", "mapobj", "iterator",
                     "ntplain", "dcplain_nospy", "simplens_nospy", "date"}
@@ -784,6 +784,8 @@ def run_shard(spec: dict[str, Any], ctx: Ctx) -> None:
     for f in r.scan.filters_called:
         ctx.seen("filters_called", f)
     ctx.count("callable_items_served_by_drop", O.MON.callables_served)
+    for a in O.MON.getattr_names:
+        ctx.seen("getattr_requested_names", a)
     for a in O.MON.allowed_seen:
         ctx.seen("allowed_reads", a)
     for t in r.scan.skip_types:
